@@ -147,6 +147,7 @@ class Module(object):
         self.functions = {}
         self.classes = {}
         self.assigns = {}  # module-level name -> list of value nodes
+        self.star_imports = []  # absolute module names imported with *
         self._parents = None
         self._scan()
 
@@ -184,6 +185,10 @@ class Module(object):
             elif isinstance(node, ast.ImportFrom):
                 absmod = self.resolve_relative(node.level, node.module)
                 for al in node.names:
+                    if al.name == "*":
+                        if absmod not in self.star_imports:
+                            self.star_imports.append(absmod)
+                        continue
                     local = al.asname or al.name
                     if toplevel or local not in self.imports:
                         self.imports[local] = (absmod, al.name)
@@ -366,6 +371,11 @@ class Repo(object):
                     "%s.%s" % (modname, obj),
                 )
             return ("ext", "%s.%s" % (modname, obj))
+        for sm in module.star_imports:
+            if sm in self.modules:
+                r = self.resolve_name(self.modules[sm], name, _depth + 1)
+                if r is not None and r[0] != "ext":
+                    return r
         return None
 
     def resolve_expr(self, module, expr):
